@@ -123,6 +123,27 @@ func (c *CloneCase) mutate(p *rtp.Packet) bool {
 		}
 
 		return p.SetExtension(id, nv) == nil
+	case "setlonger":
+		// replace a value by a LONGER one (an implementation that reuses the old storage would spill)
+		ids := p.GetExtensionIDs()
+		if len(ids) == 0 || isLegacyProfile(p.ExtensionProfile) {
+			return false
+		}
+		id := ids[c.Index%len(ids)]
+		old := p.GetExtension(id)
+		maxLen := 255
+		if p.ExtensionProfile == 0xBEDE {
+			maxLen = 16
+		}
+		if len(old) >= maxLen {
+			return false
+		}
+		nv := make([]byte, mini(maxLen, len(old)+1+c.Index%7))
+		for i := range nv {
+			nv[i] = byte(0xC3 ^ i)
+		}
+
+		return p.SetExtension(id, nv) == nil
 	case "del":
 		ids := p.GetExtensionIDs()
 		if len(ids) == 0 || isLegacyProfile(p.ExtensionProfile) {
@@ -256,6 +277,22 @@ func checkC20(r *run, c *CloneCase) (CaseInfo, error) {
 			return ci, nil
 		}
 		ci.Nontrivial = true
+		// growing the payload / CSRC list of each side through append must not reach the other
+		// side either (spare capacity is mutable memory too)
+		pa, pb := len(a.Payload), len(b.Payload)
+		ca, cb := len(a.CSRC), len(b.CSRC)
+		a.Payload = append(a.Payload, 0xA1, 0xA2)
+		b.Payload = append(b.Payload, 0xB1, 0xB2)
+		if ca < 15 {
+			a.CSRC = append(a.CSRC, 0xAAAAAAAA)
+			b.CSRC = append(b.CSRC, 0xBBBBBBBB)
+		}
+		if string(a.Payload[pa:]) != "\xa1\xa2" || string(b.Payload[pb:]) != "\xb1\xb2" {
+			return ci, failf("bytes appended to the payload of one side show up on the other: %s / %s", hx(a.Payload[pa:]), hx(b.Payload[pb:]))
+		}
+		if ca < 15 && (a.CSRC[ca] != 0xAAAAAAAA || b.CSRC[cb] != 0xBBBBBBBB) {
+			return ci, failf("a CSRC appended on one side shows up on the other: %#x / %#x", a.CSRC[ca], b.CSRC[cb])
+		}
 		for _, side := range []struct {
 			p        *rtp.Packet
 			own, not uint8
@@ -315,19 +352,26 @@ func checkC20(r *run, c *CloneCase) (CaseInfo, error) {
 
 func genCloneCase(t *rapid.T) *CloneCase {
 	c := &CloneCase{Model: *genPacketModel(t)}
-	// keep the cases small: every observation renders and marshals the whole packet
-	if len(c.Model.Payload) > 300 {
-		c.Model.Payload = c.Model.Payload[:300]
+	// keep most cases small: every observation renders and marshals the whole packet
+	// (one case in 40 keeps whatever the packet generator drew: large payloads, many extensions)
+	if rapid.IntRange(0, 39).Draw(t, "uncapped") != 0 {
+		if len(c.Model.Payload) > 300 {
+			c.Model.Payload = c.Model.Payload[:300]
+		}
+		if len(c.Model.Exts) > 40 {
+			c.Model.Exts = c.Model.Exts[:40]
+		}
+		if c.Model.ExtKind == "legacy" && len(c.Model.Exts[0].Val) > 256 {
+			c.Model.Exts[0].Val = c.Model.Exts[0].Val[:256]
+		}
 	}
-	if len(c.Model.Exts) > 40 {
-		c.Model.Exts = c.Model.Exts[:40]
-	}
-	if c.Model.ExtKind == "legacy" && len(c.Model.Exts[0].Val) > 256 {
-		c.Model.Exts[0].Val = c.Model.Exts[0].Val[:256]
+	if rapid.IntRange(0, 24).Draw(t, "bigpayload") == 0 {
+		// payloads beyond a typical MTU (a fixed-size fast path would stop here)
+		c.Model.Payload = genBytesN(t, "bigpayloadbytes", rapid.SampledFrom([]int{1499, 1500, 1501, 1600, 2048, 4096, 9000, 65536}).Draw(t, "bigpayloadlen"))
 	}
 	c.FromWire = genBool(t, "fromwire")
 	c.NilPayload = genBool(t, "nilpayload")
-	c.Mut = rapid.SampledFrom([]string{"payload", "csrc", "extval", "extval", "setnew", "setreplace", "del", "scalar", "padsize"}).Draw(t, "mut")
+	c.Mut = rapid.SampledFrom([]string{"payload", "csrc", "extval", "extval", "setnew", "setreplace", "setlonger", "del", "scalar", "padsize"}).Draw(t, "mut")
 	c.Index = rapid.IntRange(0, 4095).Draw(t, "index")
 	c.Side = rapid.SampledFrom([]string{"orig", "clone"}).Draw(t, "side")
 	c.EmptyByDel = rapid.IntRange(0, 4).Draw(t, "emptybydel") == 0
